@@ -393,6 +393,10 @@ def mutate(b, rng, t):
             d = t.shape[0]
             n = rng.randint(1, 3)
             ix = [{"array": [rng.randrange(d) for _ in range(n)], "shape": [n]}]   # may repeat: last write wins
+            if rng.random() < 0.4:
+                ix[0]["dtype"] = rng.choice(["int32", "int16", "uint8", "uint64", "int8"])   # any integer dtype is an index array for NumPy
+            if rng.random() < 0.25:
+                ix[0]["as_tensor"] = True          # ... and so is an integer Tensor
         else:
             mask = [rng.random() < 0.5 for _ in range(t.size)]
             ix = {"bool": mask, "shape": list(t.shape)}
